@@ -13,7 +13,12 @@ pub fn cors_env(rng: &mut crate::util::Rng) -> Vec<(String, String)> {
     let n = rng.below(5);
     let mut pool: Vec<&str> = ORIGINS.to_vec();
     rng.shuffle(&mut pool);
-    env.push(("RWS_CONFIG_CORS_ALLOW_ORIGINS".to_string(), pool[..n].join(",")));
+    let mut chosen: Vec<String> = pool[..n].iter().map(|x| x.to_string()).collect();
+    // entries that look like patterns are still just strings: only the exact Origin matches them
+    if rng.chance(1, 6) {
+        chosen.push(rng.pick(&["https://*.b.example", "http://*.example", "*", "https://*", "http://a.example:*", "https://app.example.org/*"]).to_string());
+    }
+    env.push(("RWS_CONFIG_CORS_ALLOW_ORIGINS".to_string(), chosen.join(",")));
     let pick_list = |rng: &mut crate::util::Rng, xs: &[&str]| -> String { xs.iter().filter(|_| rng.chance(1, 2)).copied().collect::<Vec<_>>().join(",") };
     env.push(("RWS_CONFIG_CORS_ALLOW_METHODS".to_string(), pick_list(rng, &["GET", "POST", "PUT", "DELETE", "OPTIONS", "HEAD"])));
     env.push(("RWS_CONFIG_CORS_ALLOW_HEADERS".to_string(), pick_list(rng, &["content-type", "x-custom", "authorization", "x-requested-with"])));
@@ -100,7 +105,7 @@ pub fn c11_scenario(seed: u64, idx: u64) -> Scenario {
     let origins = model_origins(&sc.env);
     let n = rng.range(2, 8);
     for i in 0..n {
-        let origin: Option<String> = match rng.below(12) {
+        let origin: Option<String> = match rng.below(13) {
             0 => None,
             1 | 2 | 3 if !origins.is_empty() => Some(origins[rng.below(origins.len())].clone()),
             4 if !origins.is_empty() => {
@@ -119,7 +124,17 @@ pub fn c11_scenario(seed: u64, idx: u64) -> Scenario {
             7 if !origins.is_empty() => Some(origins[rng.below(origins.len())].to_ascii_uppercase()),
             8 => Some(String::new()),
             9 if origins.len() >= 2 => Some(format!("{},{}", origins[0], origins[1])),
-            10 => Some(rng.pick(&["http://evil.example", "null", "http://a.example.evil.net", ",", "http", ":", "e"]).to_string()),
+            10 => Some(rng.pick(&["http://evil.example", "null", "http://a.example.evil.net", ",", "http", ":", "e", "https://evil.b.example", "http://x.example", "https://anything", "http://a.example:8080", "https://app.example.org/path"]).to_string()),
+            11 if !origins.is_empty() => {
+                // an origin list: a configured origin next to a foreign one
+                let o = &origins[rng.below(origins.len())];
+                Some(match rng.below(4) {
+                    0 => format!("{} http://evil.example", o),
+                    1 => format!("http://evil.example {}", o),
+                    2 => format!("{}\thttp://evil.example", o),
+                    _ => format!("{} ", o),
+                })
+            }
             _ => Some(ORIGINS[rng.below(ORIGINS.len())].to_string()),
         };
         let method = *rng.pick(&["GET", "GET", "OPTIONS", "OPTIONS", "HEAD", "POST", "PUT", "DELETE", "PATCH"]);
@@ -255,30 +270,40 @@ pub fn c13_scenario(seed: u64, idx: u64) -> Scenario {
     sc.request_size = pick_buffer(&mut rng).max(1024);
     // a tree with ancestor and sibling sentinels: nothing anywhere may change
     let mut t = small_tree(0xC13);
-    t.root = "outer/root".into();
+    t.mtime_mode = 0;
+    // the served directory's own name may contain what file-ext refuses in paths (then nothing is
+    // served, but nothing may be written either)
+    let rootname = if rng.chance(1, 6) { *rng.pick(&["my site", "a&b", "it's", "semi;colon"]) } else { "root" };
+    t.root = format!("outer/{}", rootname);
     for e in t.entries.iter_mut() {
-        e.path = format!("outer/{}", e.path);
+        e.path = format!("outer/{}/{}", rootname, e.path.strip_prefix("root/").unwrap_or(&e.path));
     }
     t.entries.push(Entry { path: "outer/sentinel.txt".into(), kind: EntryKind::File(Content::Literal("sentinel\n".into())) });
     t.entries.push(Entry { path: "sibling/sentinel.txt".into(), kind: EntryKind::File(Content::Literal("sentinel\n".into())) });
-    t.entries.push(Entry { path: "outer/root/emptydir".into(), kind: EntryKind::Dir });
+    t.entries.push(Entry { path: format!("outer/{}/emptydir", rootname), kind: EntryKind::Dir });
     // symbolic links of every shape an owner may place: to files, to directories, relative with
     // '..', through another link, dangling, leaving the root
-    t.entries.push(Entry { path: "outer/root/real/target.txt".into(), kind: EntryKind::File(Content::Literal("target\n".into())) });
-    t.entries.push(Entry { path: "outer/root/real/sub/alias.txt".into(), kind: EntryKind::Symlink("../target.txt".into()) });
-    t.entries.push(Entry { path: "outer/root/real/sub/index.html".into(), kind: EntryKind::File(Content::Literal("<p>sub</p>\n".into())) });
-    t.entries.push(Entry { path: "outer/root/shortcut".into(), kind: EntryKind::Symlink("real/sub".into()) });
-    t.entries.push(Entry { path: "outer/root/ln.txt".into(), kind: EntryKind::Symlink("file.txt".into()) });
-    t.entries.push(Entry { path: "outer/root/ln2.txt".into(), kind: EntryKind::Symlink("./ln.txt".into()) });
-    t.entries.push(Entry { path: "outer/root/dangling.txt".into(), kind: EntryKind::Symlink("nowhere.txt".into()) });
-    t.entries.push(Entry { path: "outer/root/dangling-up.txt".into(), kind: EntryKind::Symlink("../../nowhere/x.txt".into()) });
-    t.entries.push(Entry { path: "outer/root/out.txt".into(), kind: EntryKind::Symlink("../sentinel.txt".into()) });
-    t.entries.push(Entry { path: "outer/root/slashes.txt".into(), kind: EntryKind::Symlink("real//target.txt".into()) });
+    t.entries.push(Entry { path: format!("outer/{}/real/target.txt", rootname), kind: EntryKind::File(Content::Literal("target\n".into())) });
+    t.entries.push(Entry { path: format!("outer/{}/real/sub/alias.txt", rootname), kind: EntryKind::Symlink("../target.txt".into()) });
+    t.entries.push(Entry { path: format!("outer/{}/real/sub/index.html", rootname), kind: EntryKind::File(Content::Literal("<p>sub</p>\n".into())) });
+    t.entries.push(Entry { path: format!("outer/{}/shortcut", rootname), kind: EntryKind::Symlink("real/sub".into()) });
+    t.entries.push(Entry { path: format!("outer/{}/ln.txt", rootname), kind: EntryKind::Symlink("file.txt".into()) });
+    t.entries.push(Entry { path: format!("outer/{}/ln2.txt", rootname), kind: EntryKind::Symlink("./ln.txt".into()) });
+    t.entries.push(Entry { path: format!("outer/{}/dangling.txt", rootname), kind: EntryKind::Symlink("nowhere.txt".into()) });
+    t.entries.push(Entry { path: format!("outer/{}/dangling-up.txt", rootname), kind: EntryKind::Symlink("../../nowhere/x.txt".into()) });
+    t.entries.push(Entry { path: format!("outer/{}/out.txt", rootname), kind: EntryKind::Symlink("../sentinel.txt".into()) });
+    t.entries.push(Entry { path: format!("outer/{}/slashes.txt", rootname), kind: EntryKind::Symlink("real//target.txt".into()) });
     sc.tree = t;
     let n = rng.range(1, 6);
     for i in 0..n {
         let (class, bytes) = match rng.below(10) {
             0..=4 => ("upload_shaped", upload_shaped(&mut rng)),
+            7 => {
+                // companion-file conventions: an existing path plus a well-known suffix
+                let base = *rng.pick(&["/file.txt", "/page.html", "/big.bin", "/d/index.html", "/probe.txt", "/one.txt"]);
+                let suffix = *rng.pick(&[".base64", ".gz", ".br", ".zst", ".map", ".sha256", ".md5", ".sig", ".asc", ".torrent", ".bak", ".orig", ".tmp", ".part", ".json", ".meta", "~", ".swp", ".lock", ".thumb", ".webp", ".min.js", ".b64", ".hex", ".zip"]);
+                ("suffix_probe", req(*rng.pick(&["GET", "HEAD"]), &format!("{}{}", base, suffix), &[], b""))
+            }
             5 | 6 => {
                 let p = *rng.pick(&["/shortcut/alias.txt", "/shortcut/", "/shortcut", "/real/sub/alias.txt", "/ln.txt", "/ln2.txt", "/dangling.txt", "/dangling-up.txt", "/out.txt", "/slashes.txt", "/emptydir/", "/emptydir"]);
                 let m = *rng.pick(&["GET", "GET", "HEAD", "OPTIONS", "POST"]);
